@@ -17,26 +17,33 @@ Fixpoint listN_eqb (a b : list N) : bool :=
   | _, _ => false
   end.
 
-Definition case08 : Type := (N * option tv * option tv * list tv * list N)%type.
+(* (entry size, lo, hi, time values of the entries, offsets of invalid (all-0xFF) entries, impl) *)
+Definition case08 : Type := (N * option tv * option tv * list tv * list N * list N)%type.
 
-Definition model_fos (sz : N) (lo hi : option tv) (tvs : list tv) : option (list N) :=
-  match records_out_K2 lo hi sz tvs with WDone l => Some l | WOutOfFuel _ => None end.
+Fixpoint memN (x : N) (l : list N) : bool :=
+  match l with [] => false | y :: r => (x =? y) || memN x r end.
+
+Definition model_fos (sz : N) (lo hi : option tv) (tvs : list tv) (bad : list N) : option (list N) :=
+  match records_sent (fun fo => memN fo bad) (records_out_K2 lo hi sz tvs) with
+  | WDone l => Some l | WOutOfFuel _ => None end.
 
 (* B: implementation (in-process reader) vs model.  Reports (case index, model's count + 1;
    0 = the model ran out of fuel) for disagreeing cases. *)
 Definition model_bad (cs : list case08) : list (N * N) :=
-  flat_map (fun ic => let '(i, (sz, lo, hi, tvs, impl)) := ic in
-                      match model_fos sz lo hi tvs with
+  flat_map (fun ic => let '(i, (sz, lo, hi, tvs, bad, impl)) := ic in
+                      match model_fos sz lo hi tvs bad with
                       | Some l => if listN_eqb l impl then [] else [(i, N.of_nat (length l) + 1)]
                       | None => [(i, 0)]
                       end) (index_from 0 cs).
 
-(* C: implementation (the s4 binary) vs spec; needs neither the model nor the tables *)
-Definition spec_fos (sz : N) (lo hi : option tv) (tvs : list tv) : list N :=
-  map r_fo (spec_records lo hi (index_recs sz 0 tvs)).
+(* C: implementation (the s4 binary) vs spec; needs neither the model nor the tables.
+   An invalid entry is not a record: the spec is taken over the valid entries. *)
+Definition spec_fos (sz : N) (lo hi : option tv) (tvs : list tv) (bad : list N) : list N :=
+  map r_fo (stable_sort_by_time (filter (fun r => negb (memN (r_fo r) bad))
+                                        (filter (rec_keep lo hi) (index_recs sz 0 tvs)))).
 Definition spec_bad (cs : list case08) : list (N * N) :=
-  flat_map (fun ic => let '(i, (sz, lo, hi, tvs, impl)) := ic in
-                      let l := spec_fos sz lo hi tvs in
+  flat_map (fun ic => let '(i, (sz, lo, hi, tvs, bad, impl)) := ic in
+                      let l := spec_fos sz lo hi tvs bad in
                       if listN_eqb l impl then [] else [(i, N.of_nat (length l) + 1)])
            (index_from 0 cs).
 
@@ -48,12 +55,12 @@ Fixpoint find_layout (n : bytes) (t : list layout) : option layout :=
   | [] => None
   | l :: r => if beqb n (l_name l) then Some l else find_layout n r
   end.
-Definition bytes_bad (cs : list (string * string * option tv * option tv * list N)) : list (N * N) :=
-  flat_map (fun ic => let '(i, (name, hexfile, lo, hi, impl)) := ic in
+Definition bytes_bad (cs : list (string * string * option tv * option tv * list N * list N)) : list (N * N) :=
+  flat_map (fun ic => let '(i, (name, hexfile, lo, hi, bad, impl)) := ic in
                       match find_layout (s2b name) fixedstruct_layouts with
                       | None => [(i, 0)]
                       | Some l =>
-                          match model_fos (l_size l) lo hi (file_tvs l (unhex hexfile)) with
+                          match model_fos (l_size l) lo hi (file_tvs l (unhex hexfile)) bad with
                           | Some o => if listN_eqb o impl then [] else [(i, N.of_nat (length o) + 1)]
                           | None => [(i, 0)]
                           end
